@@ -452,7 +452,12 @@ class Compiler(object):
                     self.pre_process_default_value_octet_string(member)
 
                 if resolved_member['type'] == 'ENUMERATED' and self._numeric_enums:
-                    for key, value in resolved_member['values']:
+                    for item in resolved_member['values']:
+                        if item == EXTENSION_MARKER:
+                            continue
+
+                        key, value = item
+
                         if key == member['default']:
                             member['default'] = value
                             break
